@@ -238,6 +238,9 @@ def table_of(fx, f, depth=0):
     m = tables.find_match(f)
     if m is not None:
         return tables.match_table(fx, m)
+    ic = tables.ifchain_table(fx, f)
+    if ic is not None:
+        return ic
     if depth > 3:
         return None
     e = body_expr(f)
@@ -253,6 +256,8 @@ def table_of(fx, f, depth=0):
 def r3(fx, chk):
     # (a) TryFrom<uN> for fieldless enums, discovered
     found = 0
+    compared = 0
+    not_compared = []
     for f in sorted(fx.fns.values(), key=lambda f: f["id"]):
         im = f.get("impl") or {}
         tr = short(im.get("trait") or "")
@@ -265,9 +270,22 @@ def r3(fx, chk):
         ename = last(adt["id"])
         discr = enum_discrs(adt)
         m = tables.find_match(f)
-        if m is None:
-            chk.bad("R3", "%s|no-match" % ename, "TryFrom for %s is not a match table" % ename, site_of(f))
+        # vocabulary: a `match` on (bits of) the converted value with integer / wildcard arms.  A conversion written another
+        # way (lookup in a const array, arithmetic on the discriminant, ...) is outside what this rule can read: it is
+        # listed as not compared, never reported; the floor below keeps the rule from passing vacuously
+        import bits as _bits
+        in_vocab = m is not None
+        if in_vocab:
+            try:
+                bv0 = _bits.Evaluator(fx).ev(m["scrut"])
+            except Exception:
+                bv0 = None
+            in_vocab = bv0 is not None and all(b in (0, 1) or (isinstance(b, tuple) and b[0] == "v") for b in bv0.bits)
+            in_vocab = in_vocab and all(p[0] in ("int", "wild", "bind", "range", "or") for p, _r, _a in tables.match_table(fx, m))
+        if not in_vocab:
+            not_compared.append(ename)
             continue
+        compared += 1
         # the table must be keyed on the value itself: any masking / shifting / arithmetic on the scrutinee changes which
         # inputs are accepted (decided with the bit-routing evaluator: every bit of the scrutinee is the same bit of the input)
         sc = m["scrut"]
@@ -324,12 +342,18 @@ def r3(fx, chk):
         elif ename == "AudioObjectType":
             chk.require(set(discr.values()) == AAC_OBJECT_TYPES, "R3", "AudioObjectType|spec", "ISO 14496-3 object type ids", "AudioObjectType ids differ from ISO/IEC 14496-3 Table 1.17: %s" % sorted(set(discr.values()) ^ AAC_OBJECT_TYPES), site_of(f))
     chk.floor("R3", "TryFrom<uN> enum tables", found, 4)
+    chk.floor("R3", "TryFrom<uN> enum tables written as match tables (compared)", compared, 4)
+    chk.analysed["tables_not_compared"] = not_compared
 
     # (b) TrackType
     tt_str = fx.impl_fn("TrackType", "TryFrom<&str>", "try_from")
     tt_fcc = fx.impl_fn("TrackType", "TryFrom<&FourCC>", "try_from")
     tt_back = fx.impl_fn("FourCC", "From<TrackType>", "from")
-    if chk.anchor("R3", "TrackType conversions", tt_str and tt_fcc and tt_back):
+    unreadable = [f["id"] for f in (tt_str, tt_fcc, tt_back) if f is not None and table_of(fx, f) is None]
+    if unreadable:
+        # not written as a table (match / if-chain on one subject): outside the vocabulary, listed, not reported
+        chk.analysed.setdefault("tables_not_compared", []).extend(short(x) for x in unreadable)
+    elif chk.anchor("R3", "TrackType conversions", tt_str and tt_fcc and tt_back):
         def fwd_table(f, kind):
             out = {}
             werr = False
@@ -362,7 +386,10 @@ def r3(fx, chk):
     mt_str = fx.impl_fn("MediaType", "TryFrom<&str>", "try_from")
     mt_b1 = fx.impl_fn("&str", "From<MediaType>", "from")
     mt_b2 = fx.impl_fn("&str", "From<&MediaType>", "from")
-    if chk.anchor("R3", "MediaType conversions", mt_str and mt_b1 and mt_b2):
+    unreadable = [f["id"] for f in (mt_str, mt_b1, mt_b2) if f is not None and table_of(fx, f) is None]
+    if unreadable:
+        chk.analysed.setdefault("tables_not_compared", []).extend(short(x) for x in unreadable)
+    elif chk.anchor("R3", "MediaType conversions", mt_str and mt_b1 and mt_b2):
         fwd = {}
         werr = False
         for pat, res, arm in (table_of(fx, mt_str) or []):
@@ -552,6 +579,12 @@ def r5(fx, chk):
             except tables.NotConst:
                 continue
             groups[idx] = ev.ev(n["r"])
+    if not groups:
+        for n, _ in hirq.walk(hirq.body_root(dec)):
+            if n.get("k") == "array" and len(n.get("es", [])) == 3 and (n.get("ty") or "").startswith("[u16; 3]"):
+                cand = {i: ev.ev(e) for i, e in enumerate(n["es"])}
+                if all(getattr(g, "routing", None) and g.routing() for g in cand.values()):
+                    groups = cand
     pname = [p["name"] for p in dec["hir"]["params"] if p.get("k") == "bind"][0]
     ok = True
     for i, sh in ((0, 10), (1, 5), (2, 0)):
@@ -560,36 +593,24 @@ def r5(fx, chk):
         good = g is not None and g.routing() == want and g.bits[5] == 1 and g.bits[6] == 1 and all(b == 0 for b in g.bits[7:])
         chk.require(good, "R5", "decode|char%d" % i, "bits %d..%d + 0x60" % (sh, sh + 4), "language character %d is decoded as %r; ISO 639-2/T packing is ((code >> %d) & 0x1F) + 0x60" % (i, g, sh), site_of(dec))
         ok = ok and good
-    # the routing applies to every input: each point where the result is produced is dominated by the three stores
-    body = body_of(dec)
-    if body is not None:
-        stores = {}
-        for b in range(body.n):
-            for st_ in body.stmts(b):
-                if st_["k"] == "assign" and st_["place"]["p"]:
-                    for pe in st_["place"]["p"]:
-                        if not isinstance(pe, dict) or not body.local_ty(st_["place"]["l"]).startswith("[u16; 3]"):
-                            continue
-                        if "cidx" in pe:
-                            stores.setdefault(pe["cidx"], []).append(b)
-                        elif "index" in pe:
-                            sd = body.single_def(pe["index"])
-                            from mir import op_const
-                            cv = op_const(sd[3]["a"]) if sd is not None and sd[2] == "assign" and sd[3]["k"] == "use" else None
-                            if cv is not None:
-                                stores.setdefault(cv, []).append(b)
-        outs = []
-        for b in range(body.n):
-            if b not in body.reach:
-                continue
-            if any(st_["k"] == "assign" and st_["place"]["l"] == 0 for st_ in body.stmts(b)):
-                outs.append(b)
-            t_ = body.term(b)
-            if t_["k"] == "call" and t_["dest"]["l"] == 0:
-                outs.append(b)
-        total = len(stores) == 3 and bool(outs) and all(any(body.dominates(sb, o) for sb in stores[i]) for i in stores for o in outs)
-        chk.require(total, "R5", "decode|total", "every result is produced after the three character groups were decoded from the packed code",
-                    "language_string returns a value on a path that bypasses the 5-bit decoding: some 16-bit codes are not decoded as packed ISO-639-2/T", site_of(dec))
+    # the routing applies to every input: the three groups are decoded by top-level statements of the function and nothing
+    # before them can leave the function (an early `return` / `?` would let some codes bypass the packing)
+    root = hirq.body_root(dec)
+    stmts = list(root.get("stmts", [])) + ([{"k": "expr", "e": root["expr"]}] if isinstance(root.get("expr"), dict) else [])
+    decoded_at = None
+    for si, st_ in enumerate(stmts):
+        for n, _ in hirq.walk(st_):
+            if (n.get("k") == "assign" and n["l"].get("k") == "index") or (n.get("k") == "array" and len(n.get("es", [])) == 3 and (n.get("ty") or "").startswith("[u16; 3]")):
+                top = st_.get("e") is n or (st_.get("k") == "let" and st_.get("init") is n) or (st_.get("k") in ("semi", "expr") and st_.get("e") is n)
+                decoded_at = (si, top) if decoded_at is None or si > decoded_at[0] else decoded_at
+    early = []
+    if decoded_at is not None:
+        for st_ in stmts[:decoded_at[0]]:
+            for n, _ in hirq.walk(st_):
+                if n.get("k") in ("ret", "try"):
+                    early.append(n.get("line"))
+    chk.require(decoded_at is not None and decoded_at[1] and not early, "R5", "decode|total", "every result is produced after the three character groups were decoded from the packed code",
+                "language_string can return before / without the 5-bit decoding (early exit at line %s): some 16-bit codes are not decoded as packed ISO-639-2/T" % (early[:1] or ["?"])[0], site_of(dec))
     # encoder: final value of `code`
     ev2 = Evaluator(fx)
     code = None
